@@ -7,10 +7,10 @@ R=${VP_RUN_REPO:?needs vp run --with-repo}
 grep -rl "/repo" harness check setup.sh tools --include=Cargo.toml --include=check --include="*.sh" --include="*.toml" | xargs sed -i "s#\"/repo\"#\"$R\"#g"
 while read name props; do
   [ -z "$name" ] && continue
-  git -C $R apply benign/$name/patch.diff || { echo "$name: patch does not apply"; continue; }
+  git -C $R apply $PWD/benign/$name/patch.diff || { echo "$name: patch does not apply"; continue; }
   for p in $props; do
     VERIF_SEED=${VERIF_SEED:-0} ./check $p quick > ben-$name-$p.log 2>&1; rc=$?
     echo "$name $p exit=$rc $(grep -c '^VIOLATION' ben-$name-$p.log) violation lines; $(grep 'case=' ben-$name-$p.log | head -1 | cut -c1-260)"
   done
-  git -C $R checkout -- .
+  git -C $R checkout -- .; git -C $R clean -fdq src
 done < $plan
